@@ -201,8 +201,15 @@ class Query(QueryBase[QueryResult]):
         # Random sampling: generate a random number in (0, 1) based on the
         # specification of SQLite's random() function.
         if self.sample is not None:
+            # The (zero-valued) reference to all joined tables forces SQLite
+            # to evaluate this condition once per result row. A condition that
+            # mentions no table is evaluated in the outermost loop of the join
+            # the query planner happens to choose - typically once per
+            # *flight*, so that all instances of a flight were kept or dropped
+            # together instead of being sampled individually.
             self._conditions.append(
-                '(random() + 9223372036854775808) / 18446744073709551615.0 < ?'
+                '(random() + 9223372036854775808) / 18446744073709551615.0 '
+                '+ 0 * (s.id + f.id + ao.id + ad.id) < ?'
             )
             self._params.append(self.sample)
 
